@@ -126,6 +126,7 @@ class Ctx:
         doc = dict(payload)
         doc["property"] = self.prop
         doc["signature"] = signature
+        doc.setdefault("tier", getattr(self, "tier", "quick"))
         digest = hashlib.sha1(
             (self.prop + "|" + signature).encode()
         ).hexdigest()[:12]
